@@ -46,6 +46,11 @@ LARK = [
     ("nested_rep", 'start: (("a"|"b"){2} ","){1,3} "."\n'),
     ("substr", 'start: S "."\nS: %regex { "substring_words": "the quick brown fox jumps" }\n'),
     ("free_text", 'start: /(.|\\n)*/\n'),
+    # "rest of the line" lexemes: every printable character but only some of TAB / CR / LF (a lexeme that contains the
+    # default string slice and not the whitespace slice)
+    ("rest_of_line", 'start: line ("\\n" line)*\nline: /[^\\n]+/\n'),
+    ("dot_plus", 'start: /.+/\n'),
+    ("no_crlf", 'start: /[^\\r\\n]+/ "\\r\\n" /[a-z\\t]+/\n'),
     ("text_then_tag", 'start: /[^<]*/ "<end>"\n'),
     # docs/syntax.md "Tool calling": lazy and greedy lexemes live in the same lexer state
     ("doc_toolcall", 'start: ( f_foo | f_bar )* f_end\nf_end: TEXT\nTEXT: /(.|\\n)*/\n\n'
